@@ -22,7 +22,7 @@ def parseFmtInput (inp out : Json) : Option FmtInput := do
   let env : Env :=
     { colorDisabled := jbool e "nocolor", unfiltered := jbool e "unfiltered", nospaceEnv := jS e "nospace",
       ci := jbool e "ci", wordbreaks := joptS e "wordbreaks", bashPrefix := jS e "bashPrefix",
-      bashCompType := jS e "bashCompType", zshRaw := jS e "zshRaw", namedDirs := nd,
+      bashCompType := jS e "bashCompType", zshRaw := jS out "zshRawToken", namedDirs := nd,
       errStyle := jS out "errStyle", dfltStyle := jS out "dfltStyle" }
   let m := jget inp "meta"
   let msgs := (jstrs m "messages").foldl (fun acc x => insertMsg x acc) []
